@@ -27,6 +27,8 @@ Record ectx := { x_de : list dataele; x_codes : list codeset; x_exclude : list s
 Definition ctx_of (m : xmap) : ectx :=
   {| x_de := m_dataele m; x_codes := m_codes m; x_exclude := m_exclude m; x_charset := m_charset m; x_icvn := m_icvn m |}.
 
+Definition mk_ev (refdes : option str) (code : string) (msg : str) (v : option str) : hev := HEleErr (l code) msg v refdes.
+
 (* element data as the element node sees it: None, or the list of component values
    (a Composite from Segment.get, or a single Element of a composite) *)
 Definition edata := option (list str).
@@ -64,20 +66,23 @@ Fixpoint any_valid_type (c : ectx) (v : str) (ts : list (option str)) : result b
   | t :: rest => do a <- valid_type c v t false; do b <- any_valid_type c v rest; Ok (a || b)
   end.
 
+Definition lenmsg (nm v : str) (len : Z) (what : string) (cmp : string) (lim : Z) (limname : string) : str :=
+  l "Data element " ++ nm ++ l " is too " ++ l what ++ l ": len(""" ++ v ++ l """) = " ++ fmt_i len ++
+  l " " ++ l cmp ++ l " " ++ fmt_i lim ++ l " (" ++ l limname ++ l ")".
+
 (* element_if.is_valid.  parent: (is_composite, usage, seq) of the parent node *)
-Definition elem_is_valid (c : ectx) (e : elem) (parent_comp : option (option str * Z))
+Definition elem_is_valid (sub : ascii) (c : ectx) (e : elem) (parent_comp : option (option str * Z))
                          (d : edata) (type_list : list (option str)) : result (bool * list hev) :=
   let info := {| ei_data_ele := e_data_ele e; ei_name := e_name e; ei_seq := e_seq e;
                  ei_parent_is_composite := match parent_comp with Some _ => true | None => false end;
                  ei_parent_seq := match parent_comp with Some (_, s0) => s0 | None => 0%Z end |} in
   let refdes := e_id e in
-  let err code msg v := HEleErr (l code) msg v refdes in
   let pre := [HAddEle info] in
   let nm := q (e_name e) ++ l " (" ++ ostr0 refdes ++ l ")" in
   match d with
   | Some (_ :: _ :: _ as comps) =>
       (* an element node given a composite value *)
-      Ok (false, pre ++ [err "6" (l "Data element " ++ nm ++ l " is an invalid composite") (Some (l "<composite>"))])
+      Ok (false, pre ++ [mk_ev refdes "6" (l "Data element " ++ nm ++ l " is an invalid composite") (Some (format_comp sub comps))])
   | _ =>
     let empty := match d with None => true | Some dd => match ed_value dd with [] => true | _ => false end end in
     let early :=
@@ -85,7 +90,7 @@ Definition elem_is_valid (c : ectx) (e : elem) (parent_comp : option (option str
         if usage_is (e_usage e) "N" || usage_is (e_usage e) "S" then Some (Ok (true, pre))
         else if usage_is (e_usage e) "R" then
           if negb (e_seq e =? 1)%Z || match parent_comp with None => true | Some (pu, _) => usage_is pu "R" end
-          then Some (Ok (false, pre ++ [err "1" (l "Mandatory data element " ++ nm ++ l " is missing") None]))
+          then Some (Ok (false, pre ++ [mk_ev refdes "1" (l "Mandatory data element " ++ nm ++ l " is missing") None]))
           else Some (Ok (true, pre))
         else None
       else None in
@@ -97,7 +102,7 @@ Definition elem_is_valid (c : ectx) (e : elem) (parent_comp : option (option str
       | Some dd =>
         let v := ed_value dd in
         if usage_is (e_usage e) "N" && negb (match v with [] => true | _ => false end) then
-          Ok (false, pre ++ [err "10" (l "Data element " ++ nm ++ l " is marked as Not Used") None])
+          Ok (false, pre ++ [mk_ev refdes "10" (l "Data element " ++ nm ++ l " is marked as Not Used") None])
         else
           do de <- get_by_elem_num (x_de c) (e_data_ele e);
           let ty := de_type de in
@@ -108,46 +113,43 @@ Definition elem_is_valid (c : ectx) (e : elem) (parent_comp : option (option str
                          end);
           let measured := if numeric then replace_char "."%char (replace_char "-"%char v) else v in
           let len := Z.of_nat (length measured) in
-          let lenmsg (what : string) (cmp : string) (lim : Z) (limname : string) :=
-              l "Data element " ++ nm ++ l " is too " ++ l what ++ l ": len(""" ++ v ++ l """) = " ++ fmt_i len ++
-              l " " ++ l cmp ++ l " " ++ fmt_i lim ++ l " (" ++ l limname ++ l ")" in
-          let e_short := if (len <? de_min de)%Z then [err "4" (lenmsg "short" "<" (de_min de) "min_len") (Some v)] else [] in
-          let e_long := if (de_max de <? len)%Z then [err "5" (lenmsg "long" ">" (de_max de) "max_len") (Some v)] else [] in
+          let e_short := if (len <? de_min de)%Z then [mk_ev refdes "4" (lenmsg nm v len "short" "<" (de_min de) "min_len") (Some v)] else [] in
+          let e_long := if (de_max de <? len)%Z then [mk_ev refdes "5" (lenmsg nm v len "long" ">" (de_max de) "max_len") (Some v)] else [] in
           let valid0 := match e_short ++ e_long with [] => true | _ => false end in
           match contains_control_character v with
           | Some bad =>
               Ok (false, pre ++ e_short ++ e_long ++
-                         [err "6" (l "Data element " ++ nm ++ l ", contains an invalid control character(" ++ bad ++ l ")") (Some bad)])
+                         [mk_ev refdes "6" (l "Data element " ++ nm ++ l ", contains an invalid control character(" ++ bad ++ l ")") (Some bad)])
           | None =>
             do lastc <- last_char v;                          (* elem_val[-1]: v is not empty here *)
             let is_an_id := match ty with Some t => mem_str t [l "AN"; l "ID"] | None => false end in
             let e_trail :=
               if is_an_id && Ascii.eqb lastc " "%char && (de_min de <=? Z.of_nat (length (rstrip_ws v)))%Z
-              then [err "6" (l "Data element " ++ nm ++ l " has unnecessary trailing spaces. (" ++ v ++ l ")") (Some v)] else [] in
+              then [mk_ev refdes "6" (l "Data element " ++ nm ++ l " has unnecessary trailing spaces. (" ++ v ++ l ")") (Some v)] else [] in
             do code_ok <- is_valid_code c e v;
             let e_code := if code_ok then []
-                          else [err "7" (l "(" ++ v ++ l ") is not a valid code for " ++ ostr0 (e_name e) ++ l " (" ++ ostr0 refdes ++ l ")") (Some v)] in
+                          else [mk_ev refdes "7" (l "(" ++ v ++ l ") is not a valid code for " ++ ostr0 (e_name e) ++ l " (" ++ ostr0 refdes ++ l ")") (Some v)] in
             do type_ok <- valid_type c v ty true;
             let e_type :=
               if type_ok then []
-              else if is_date_type ty then [err "8" (l "Data element " ++ nm ++ l " contains an invalid date (" ++ v ++ l ")") (Some v)]
-              else if ostr_eqb ty (Some (l "TM")) then [err "9" (l "Data element " ++ nm ++ l " contains an invalid time (" ++ v ++ l ")") (Some v)]
-              else [err "6" (l "Data element " ++ nm ++ l " is type " ++ ostr0 ty ++ l ", contains an invalid character(" ++ v ++ l ")") (Some v)] in
+              else if is_date_type ty then [mk_ev refdes "8" (l "Data element " ++ nm ++ l " contains an invalid date (" ++ v ++ l ")") (Some v)]
+              else if ostr_eqb ty (Some (l "TM")) then [mk_ev refdes "9" (l "Data element " ++ nm ++ l " contains an invalid time (" ++ v ++ l ")") (Some v)]
+              else [mk_ev refdes "6" (l "Data element " ++ nm ++ l " is type " ++ ostr0 ty ++ l ", contains an invalid character(" ++ v ++ l ")") (Some v)] in
             do tl <- (match type_list with
                       | [] => Ok (true, [])
                       | _ =>
                           do anyv <- any_valid_type c v type_list;
                           if anyv then Ok (true, [])
                           else if existsb (ostr_eqb (Some (l "TM"))) type_list
-                          then Ok (false, [err "9" (l "Data element " ++ nm ++ l " contains an invalid time (" ++ v ++ l ")") (Some v)])
+                          then Ok (false, [mk_ev refdes "9" (l "Data element " ++ nm ++ l " contains an invalid time (" ++ v ++ l ")") (Some v)])
                           else if existsb is_date_type type_list
-                          then Ok (false, [err "8" (l "Data element " ++ nm ++ l " contains an invalid date (" ++ v ++ l ")") (Some v)])
+                          then Ok (false, [mk_ev refdes "8" (l "Data element " ++ nm ++ l " contains an invalid date (" ++ v ++ l ")") (Some v)])
                           else Ok (false, [])
                       end);
             let e_rx := match e_rec e with
                         | Some r => match search r v with
                                     | Some _ => []
-                                    | None => [err "7" (l "Data element " ++ q (e_name e) ++ l " with a value of (" ++ v ++ l ")" ++
+                                    | None => [mk_ev refdes "7" (l "Data element " ++ q (e_name e) ++ l " with a value of (" ++ v ++ l ")" ++
                                                         l " failed to match the regular expression """ ++ ostr0 (e_res e) ++ l """") (Some v)]
                                     end
                         | None => []
@@ -160,7 +162,7 @@ Definition elem_is_valid (c : ectx) (e : elem) (parent_comp : option (option str
   end.
 
 (* composite_if.is_valid; comp_data = None or the component values *)
-Definition comp_is_valid (c : ectx) (cn : comp) (d : edata) : result (bool * list hev) :=
+Definition comp_is_valid (sub : ascii) (c : ectx) (cn : comp) (d : edata) : result (bool * list hev) :=
   let refdes := c_refdes cn in
   let nm := q (c_name cn) ++ l " (" ++ ostr0 refdes ++ l ")" in
   let empty := match d with None => true | Some dd => forallb (fun v => match v with [] => true | _ => false end) dd end in
@@ -169,7 +171,7 @@ Definition comp_is_valid (c : ectx) (cn : comp) (d : edata) : result (bool * lis
     Ok (false, [HEleErr (l "2") (l "At least one component of composite " ++ nm ++ l " is required") None refdes])
   else
     match d with
-    | None => Raise AttributeError                         (* comp_data.is_empty() / len(comp_data) on None *)
+    | None => Raise TypeError                              (* len(comp_data) on None *)
     | Some dd =>
         if usage_is (c_usage cn) "N" && negb empty then
           Ok (false, [HEleErr (l "5") (l "Composite " ++ nm ++ l " is marked as Not Used") None refdes])
@@ -182,7 +184,7 @@ Definition comp_is_valid (c : ectx) (cn : comp) (d : edata) : result (bool * lis
              | [] => Ok (valid, acc)
              | k :: kids' =>
                  let (dv, vals') := match vals with v :: r => (Some [v], r) | [] => (None, []) end in
-                 do r <- elem_is_valid c k (Some (c_usage cn, c_seq cn)) dv [];
+                 do r <- elem_is_valid sub c k (Some (c_usage cn, c_seq cn)) dv [];
                  go (S i) kids' vals' (valid && fst r) (acc ++ snd r)
              end) 0 (c_children cn) dd (match e_many with [] => true | _ => false end) e_many
     end.
@@ -219,8 +221,8 @@ Definition seg_is_valid (d : delims) (c : ectx) (sn : segm) (sg : seg) : result 
             | S f =>
                 do ch <- child_by_idx sn j;
                 do r <- (match ch with
-                         | SubE e => elem_is_valid c e None None []
-                         | SubC cn => comp_is_valid c cn None
+                         | SubE e => elem_is_valid (subele_term d) c e None None []
+                         | SubC cn => comp_is_valid (subele_term d) c cn None
                          end);
                 missing (S j) f (valid && fst r) (acc ++ snd r)
             end) i (child_count - i) valid acc
@@ -230,16 +232,11 @@ Definition seg_is_valid (d : delims) (c : ectx) (sn : segm) (sg : seg) : result 
            do ch <- child_by_idx sn i;
            match ch with
            | SubC cn =>
-               let e_sub := if (length (c_children cn) <? length v) && negb (usage_is (c_usage cn) "N") then
-                              match nth_error (c_children cn) (S (length (c_children cn))) with
-                              | Some _ => []                                 (* unreachable: index beyond the children *)
-                              | None => []
-                              end
+               let e_sub := if (length (c_children cn) <? length v) && negb (usage_is (c_usage cn) "N")
+                            then [HEleErr (l "3") (l "Too many sub-elements in composite " ++ q (c_name cn) ++ l " (" ++ ostr0 (c_refdes cn) ++ l ")")
+                                          (seg_val d sg (S i)) (Some (fmt_02 (N.of_nat (S i))))]
                             else [] in
-               do guard <- (if (length (c_children cn) <? length v) && negb (usage_is (c_usage cn) "N")
-                            then Raise AttributeError           (* get_child_node_by_idx(count + 1) is None: .name *)
-                            else Ok tt);
-               do r <- comp_is_valid c cn (Some v);
+               do r <- comp_is_valid (subele_term d) c cn (Some v);
                present (S i) vals' dtype type_list (valid && fst r) (acc ++ e_sub ++ snd r)
            | SubE e =>
                let dtype' := if (i =? 1) && is_dtp &&
@@ -248,10 +245,10 @@ Definition seg_is_valid (d : delims) (c : ectx) (sn : segm) (sg : seg) : result 
                                 | None => false end
                              then [seg_val d sg 2] else dtype in
                let type_list' := if ostr_eqb (e_data_ele e) (Some (l "1250")) then type_list ++ e_codes e else type_list in
-               do r <- (if (i =? 2) && is_dtp then elem_is_valid c e None (Some v) dtype'
+               do r <- (if (i =? 2) && is_dtp then elem_is_valid (subele_term d) c e None (Some v) dtype'
                         else if ostr_eqb (e_data_ele e) (Some (l "1251")) && negb (match type_list' with [] => true | _ => false end)
-                        then elem_is_valid c e None (Some v) type_list'
-                        else elem_is_valid c e None (Some v) []);
+                        then elem_is_valid (subele_term d) c e None (Some v) type_list'
+                        else elem_is_valid (subele_term d) c e None (Some v) []);
                present (S i) vals' dtype' type_list' (valid && fst r) (acc ++ snd r)
            end
      end) 0 (els sg) [] [] (match e_many with [] => true | _ => false end) e_many.
